@@ -132,10 +132,12 @@ class EvalContext(metaclass=NamespaceableMeta):
 
     def get_node(self, *path, **kwargs):
         path = NodePath.get_list_path(*path)
-        if str(path) in self._eval_cache:
-            if str(path) in self._eval_unsafe_path:
+        # (the components as they are, not the text of the path: the key 'b.c' and the child 'c' of 'b' are spelled alike; and
+        # not for the empty path, under which everything evaluated without a place of its own - such as keys - is filed)
+        if path and tuple(path) in self._eval_cache:
+            if tuple(path) in self._eval_unsafe_path:
                 self._note_unsafe_dependency(None, path)
-            return self._eval_cache[str(path)]
+            return self._eval_cache[tuple(path)]
         return self.cfg.ayns.get_node(path, **kwargs)
 
     @errors.api_entry
@@ -173,10 +175,10 @@ class EvalContext(metaclass=NamespaceableMeta):
         if evaluated_parent is not None:
             evaluated_parent[prefix[-1]] = evaluated_cfgobj
 
-        self._eval_cache[str(prefix)] = evaluated_cfgobj
+        self._eval_cache[tuple(prefix)] = evaluated_cfgobj
         self._eval_cache_id[utils.persistent_id(cfgobj)] = evaluated_cfgobj
         if not all_safe[0]:
-            self._eval_unsafe_path.add(str(prefix))
+            self._eval_unsafe_path.add(tuple(prefix))
             self._eval_unsafe_id.add(id(cfgobj))
         self._eval_stack.pop()
         return evaluated_cfgobj
